@@ -1277,6 +1277,58 @@ def r06t(ctx, rep, rule="R06t"):
     rep.floor(rule, "hashing operations on Cell-keyed collections", n, 7)
 
 
+def r06u(ctx, rep, rule="R06u"):
+    """macro expansion terminates: what an ellipsis repeats can run out"""
+    from .. import shapes
+    facts, cg = ctx["facts"], ctx["cg"]
+    T = "marwood::vm::transform::Transform::"
+    EXPANDED = "marwood::vm::transform::Pattern::is_expanded_variable"
+    rep.rule(rule, "the expander's repetition terminates: Transform::expand re-expands the sub-template before an ellipsis until an "
+             "expansion fails, and only a variable the pattern bound under an ellipsis can make it fail (its matches run out). "
+             "So the template check made when a transformer is defined must, where the next element is the ellipsis, test — "
+             "through Pattern::is_expanded_variable — that the repeated sub-template contains such a variable, and reject the "
+             "syntax-rules form with an error otherwise. (A repeated sub-template of ordinary variables or constants expands "
+             "for ever: (syntax-rules () ((_ a) (list a ...))).)")
+    ex = need(rep, rule, facts, T + "expand")
+    chk = need(rep, rule, facts, T + "check_template_syntax")
+    if ex is None or chk is None:
+        return
+    # the repetition exists: a loop in expand that re-enters itself
+    loops = [1 for src, h in ex.back_edges()]
+    if not loops or not any(callee(t) == ex.path for bb, t in ex.calls()):
+        rep.ok(rule, rule + "|expand|no-repetition", "Transform::expand has no re-expanding loop", [ex.span], nontrivial=False)
+        return
+    sites = []
+    for bb, t in chk.calls():
+        c = callee(t) or ""
+        if c == EXPANDED or (c.startswith("marwood::") and EXPANDED in cg.reachable_from([c]) and c != chk.path):
+            sites.append((bb, t))
+    key = rule + "|check_template_syntax|repeated-subtemplate-can-run-out"
+    good = None
+    for bb, t in sites:
+        if t.get("target") is None:
+            continue
+        sw = chk.blocks[t["target"]]["term"]
+        if sw["k"] != "switch":
+            continue
+        under_ellipsis = any("Peekable::<I>::peek(" in g and g.endswith("=T") for g in shapes.guard_shapes(chk, bb, None, 3))
+        false_t = dict((v, tg) for v, tg in sw["targets"]).get(0)
+        if false_t is None or not under_ellipsis:
+            continue
+        region = {b for b in chk.reachable() if chk.dominates(false_t, b)} if len([p_ for p_ in chk.pred[false_t] if p_ in chk.reachable()]) == 1 else set()
+        errs = [1 for b in region for st in chk.blocks[b]["stmts"] if st["rv"]["k"] == "agg" and st["rv"].get("adt") == "marwood::error::Error"]
+        if errs:
+            good = t
+    if good is not None:
+        rep.ok(rule, key, "check_template_syntax rejects a template whose ellipsis repeats something that contains no variable bound "
+               "under an ellipsis", [good["loc"]])
+    else:
+        rep.fail(rule, key, "check_template_syntax accepts an ellipsis after a sub-template that contains no variable bound under an "
+                 "ellipsis (it never consults Pattern::is_expanded_variable on the peek-is-ellipsis path, or does not reject): "
+                 "Transform::expand then repeats that sub-template for ever — (define-syntax m (syntax-rules () ((_ a) (list a ...)))) "
+                 "(m 1) never returns and exhausts memory", [chk.span])
+
+
 def run(ctx, rep):
     from . import numeric, tables, runloop
     r06a(ctx, rep)
@@ -1286,6 +1338,7 @@ def run(ctx, rep):
     r06g(ctx, rep)
     r06q(ctx, rep)
     r06t(ctx, rep)
+    r06u(ctx, rep)
     # R06n: the arithmetic arms of number.rs, arm by arm (same rule as C08's R08a)
     sub = type(rep)(rep.prop)
     numeric.r08a(ctx, sub)
